@@ -205,7 +205,7 @@ impl Message {
     /// [`body_beve`](MessageBuilder::body_beve) over a `Vec<T>`.
     pub fn decode_typed_slice<T: beve::BeveTypedSlice>(&self) -> Result<Vec<T>, RepeError> {
         self.require_body_format(BodyFormat::Beve)?;
-        Ok(beve::read_typed_slice(&self.body)?)
+        Ok(read_typed_slice_body(&self.body)?)
     }
 
     /// Decode a BEVE complex-array body into a `Vec<Complex<T>>` via a single
@@ -237,6 +237,23 @@ impl Message {
             })
         }
     }
+}
+
+/// The bytes serde produces for an empty `Vec<T>`: with no element to name the
+/// type, BEVE writes an untyped (generic) array header and a zero size.
+const BEVE_EMPTY_GENERIC_ARRAY: [u8; 2] = [0x05, 0x00];
+
+/// Bulk-decode a BEVE typed numeric array, also accepting the generic empty
+/// array, so that the bulk decoder reads everything the serde encoder writes for
+/// a `Vec<T>` (the two encodings are byte-identical except when the vector is
+/// empty).
+pub(crate) fn read_typed_slice_body<T: beve::BeveTypedSlice>(
+    body: &[u8],
+) -> Result<Vec<T>, beve::Error> {
+    if body == BEVE_EMPTY_GENERIC_ARRAY {
+        return Ok(Vec::new());
+    }
+    beve::read_typed_slice(body)
 }
 
 /// Borrowing view over a serialized REPE message.
